@@ -359,3 +359,82 @@ func genOddTags(g *core.G) {
 		}
 	}
 }
+
+// ---- containers of registered structs inside an interface{} ---------------------------------------------------------
+
+// ifacePtrStructElems: some interface{} that reaches wrap's type switch (not a struct field: that one is kept verbatim in a
+// Runtime value) holds a container — slice, array or map, containers of containers too — with a non-nil POINTER to a struct
+// among its elements.  Array.Reflect / Hash.ReflectTo infer the Go type of such a container from the pcore type, where the
+// element is the struct type (objectType.ReflectType), while every element object holds the pointer.
+func ifacePtrStructElems(t *gty, v reflect.Value, inIface, inContainer bool) bool {
+	switch t.kind {
+	case "iface":
+		if v.IsNil() {
+			return false
+		}
+		if dt := gtyOf(v.Elem().Type()); dt != nil {
+			// an interface{} element of a container that is itself inside an interface{} is still an element of that container
+			return ifacePtrStructElems(dt, v.Elem(), true, inIface && inContainer)
+		}
+	case "slice", "array":
+		for i := 0; i < v.Len(); i++ {
+			if ifacePtrStructElems(t.elem, v.Index(i), inIface, inIface) {
+				return true
+			}
+		}
+	case "map":
+		for _, k := range v.MapKeys() {
+			if ifacePtrStructElems(t.elem, v.MapIndex(k), inIface, inIface) {
+				return true
+			}
+		}
+	case "ptr":
+		if v.IsNil() {
+			return false
+		}
+		if t.elem.kind == "struct" && inIface && inContainer {
+			return true
+		}
+		return ifacePtrStructElems(t.elem, v.Elem(), inIface, inContainer)
+	case "struct":
+		for i, f := range t.fields {
+			if f.t.kind != "iface" && ifacePtrStructElems(f.t, v.Field(i), false, false) {
+				return true
+			}
+		}
+	}
+	return false
+}
+
+// genIfaceStructs: an interface{} (at the top, in a []interface{}, in a map[string]interface{}) holding a slice / array / map
+// of a registered struct type — by value (round-trips: the inferred element type is the struct), as interface{} elements that
+// all hold the struct (comes back as []S: finding C18-iface-container-type), and by pointer (cannot be reflected back: finding
+// C18-iface-ptr-struct-elems-fault); nil pointers and empty containers beside them.  Implementation only.
+func genIfaceStructs(g *core.G) {
+	for _, e := range []*gty{{kind: "int", w: 8}, {kind: "bool"}, {kind: "string"}} {
+		zero, other := genVal(g.Rng, e, 0, 0), boundary(e)[len(boundary(e))-1]
+		S := &gty{kind: "struct", fields: []gfield{{name: "A", t: e}}}
+		ss, ps := S.sexp().String(), (&gty{kind: "ptr", elem: S}).sexp().String()
+		v1, v2 := "(st "+zero+")", "(st "+other+")"
+		dyn := []string{
+			"(i (slice " + ss + ") (s " + v1 + " " + v2 + "))",
+			"(i (array 2 " + ss + ") (a " + v1 + " " + v2 + "))",
+			"(i (map string " + ss + ") (m (x61 " + v1 + ") (x62 " + v2 + ")))",
+			"(i (slice iface) (s (i " + ss + " " + v1 + ") (i " + ss + " " + v2 + ")))",
+			"(i (slice " + ps + ") (s (p " + v1 + ") (p " + v2 + ")))",
+			"(i (slice " + ps + ") (s (p " + v1 + ") nil))",
+			"(i (slice " + ps + ") (s nil))",
+			"(i (slice " + ps + ") (s))",
+			"(i (array 1 " + ps + ") (a (p " + v2 + ")))",
+			"(i (map string " + ps + ") (m (x61 (p " + v1 + "))))",
+			"(i (map string " + ps + ") (m (x61 nil)))",
+			"(i (slice (slice " + ps + ")) (s (s (p " + v2 + "))))",
+			"(i (slice iface) (s (i " + ps + " (p " + v1 + ")) (i " + ps + " (p " + v2 + "))))",
+		}
+		for _, d := range dyn {
+			g.Emit("@refl iface " + d)
+			g.Emit("@refl (slice iface) (s " + d + " nil)")
+			g.Emit("@refl (map string iface) (m (x6b " + d + "))")
+		}
+	}
+}
